@@ -155,12 +155,14 @@ class Ctx:
         shutil.rmtree(self.work, ignore_errors=True)
 
     def _load_known(self):
-        try:
-            with open(KNOWN) as f:
-                data = json.load(f)
-        except FileNotFoundError:
-            return []
-        return data.get("findings", [])
+        out = []
+        for fn in [KNOWN] + sorted(glob.glob(os.path.join(VERIF, "known_findings.d", "*.json"))):
+            try:
+                with open(fn) as f:
+                    out.extend(json.load(f).get("findings", []))
+            except FileNotFoundError:
+                pass
+        return out
 
     # ---------------------------------------------------------------- TLC
     def tlc(self, module, cfg=None, *, files=None, workers=None, timeout=900, simulate=None,
@@ -182,8 +184,7 @@ class Ctx:
         if workers is None:
             workers = min(NCPU, 8) if not self.quick() else min(NCPU, 4)
         jopts = ["-XX:+UseParallelGC", "-Xss64m"]
-        if heap:
-            jopts.append("-Xmx%s" % heap)
+        jopts.append("-Xmx%s" % (heap or "6g"))
         if queue_dfs:
             jopts.append("-Dtlc2.tool.queue.IStateQueue=StateDeque")
         cmd = ["java"] + jopts + ["-cp", TLA_CP, "tlc2.TLC", "-config", cfgname,
@@ -253,6 +254,34 @@ class Ctx:
         with open(fn, "w") as f:
             f.write(text[-400000:])
         return fn
+
+    def validate_trace(self, module, cfg, tracefile, *, name=None, timeout=900, queue_dfs=False, env=None):
+        """Trace validation (code -> spec).  <module>.tla must follow the convention of spec/TraceSession.tla:
+        reads IOEnv.TRACE_FILE, keeps the high-water mark of consumed events in TLCSet(1, ..) and its POSTCONDITION
+        prints "HW <n>" and "LEN <n>".  Returns dict(accepted, hw, len, violated, event, context, res)."""
+        e = {"TRACE_FILE": tracefile}
+        e.update(env or {})
+        res = self.tlc(module, cfg, workers=1, env=e, expect_violation=True, name=name or module, timeout=timeout,
+                       queue_dfs=queue_dfs, dump_trace=False)
+        hw = [o for t, o in res.prints if t == "HW"]
+        ln = [o for t, o in res.prints if t == "LEN"]
+        events = []
+        with open(tracefile) as f:
+            for line in f:
+                line = line.strip()
+                if line:
+                    events.append(json.loads(line))
+        if res.violated and res.violated != "postcondition":
+            # an invariant failed on a state of the recorded execution
+            return {"accepted": False, "hw": hw[-1] if hw else None, "len": len(events), "violated": res.violated,
+                    "event": None, "context": None, "res": res, "events": events}
+        if not hw or not ln:
+            raise Infra("trace validation did not reach its postcondition:\n" + _tail(res.out, 40))
+        h, n = hw[-1], ln[-1]
+        ok = (h == n + 1)
+        ev = events[h - 1] if (not ok and 0 < h <= len(events)) else None
+        return {"accepted": ok, "hw": h, "len": n, "violated": None if ok else "rejected", "event": ev,
+                "context": events[max(0, h - 10):h] if not ok else None, "res": res, "events": events}
 
     # --------------------------------------------------------------- Go harness
     def overlay(self, pkg_files, extra_replace=None):
